@@ -142,7 +142,8 @@ class E2Check:
         try:
             if payload is not None:
                 spec_dir = os.path.join(tmp, "spec")
-                G.write_tree(spec_dir, [(n, b) for n, _, b in payload], packet_bodies=[("Act", payload[0][2])])
+                G.write_tree(spec_dir, [(n, b) for n, _, b in payload],
+                             packet_bodies=[("Act", payload[0][2]), ("Act2", payload[-1][2])])
             elif tree_dir is None:
                 spec_dir = os.path.join(tmp, "spec")
                 write_single_spec(ident, body, spec_dir)
